@@ -683,7 +683,7 @@ def rule_r9(rep, idxs):
             for c in calls_in(f.body):
                 kind, name, did, obj = callee_of(c)
                 if name == 'operator<<' and any(callee_of(x)[1] == 'rdbuf' for x in calls_in(c)):
-                    cleared = any(callee_of(x)[1] == 'clear' and 'stream' in (dqt_all(callee_of(x)[3]) if callee_of(x)[3] is not None else '')
+                    cleared = any(callee_of(x)[1] == 'clear' and any(t_ in (dqt_all(callee_of(x)[3]) if callee_of(x)[3] is not None else '') for t_ in ('stream', 'basic_ios'))
                                   for x in calls_in(f.body))
                     hits.append((f.qname, pos(c), cleared))
         bad = [h for h in hits if not h[2]]
